@@ -284,6 +284,14 @@ func (x *Exec) unknownCall(cfg *Config, f *Frame, tg target, args []Val, dest ss
 		}
 		x.oblige(cfg, "nil-func-call", tg.name, Neq(*tg.unknown, IntLit(0)), nil, pos)
 		cfg.st.assume(Neq(*tg.unknown, IntLit(0)))
+		// a function-typed parameter with a declared callback contract
+		if x.c != nil && len(cfg.frames) == 1 {
+			for _, cb := range x.c.Callbacks {
+				if cb.Param == tg.name {
+					return x.applyCallback(cfg, f, cb, args, dest, isDefer, pos)
+				}
+			}
+		}
 		// pure role: results are a function of the arguments
 		if x.isPureRole(tg) {
 			res := x.pureApply(cfg, tg, args)
@@ -354,6 +362,7 @@ func (x *Exec) doReturn(cfg *Config, f *Frame, res []Val) (end bool) {
 		return true
 	}
 	cfg.frames = cfg.frames[:len(cfg.frames)-1]
+	popLoopsOf(cfg, f.depth)
 	caller := cfg.top()
 	if f.watcher != nil {
 		x.nextWatcher(cfg, f.depth-1)
@@ -417,9 +426,20 @@ func (x *Exec) unwindStep(cfg *Config, f *Frame) bool {
 		return true
 	}
 	cfg.frames = cfg.frames[:len(cfg.frames)-1]
+	popLoopsOf(cfg, f.depth)
 	caller := cfg.top()
 	caller.unwinding = true
 	return false
+}
+
+// popLoopsOf forgets the active loops of a frame that has returned.
+func popLoopsOf(cfg *Config, depth int) {
+	if depth == 0 {
+		return
+	}
+	for len(cfg.loops) > 0 && cfg.loops[len(cfg.loops)-1].depth >= depth {
+		cfg.loops = cfg.loops[:len(cfg.loops)-1]
+	}
 }
 
 func (x *Exec) doGo(cfg *Config, f *Frame, i *ssa.Go) {
@@ -487,4 +507,129 @@ func (x *Exec) lenOf(cfg *Config, v Val, t types.Type) Term {
 	}
 	unsupported("len of %s", t)
 	return Term{}
+}
+
+
+// applyCallback: a call, inside the function under verification, of a
+// function-typed parameter that has a declared callback contract. The
+// contract's ghost parameters are bound to the declared expressions evaluated
+// in this function's environment.
+func (x *Exec) applyCallback(cfg *Config, f *Frame, cb *CallbackDecl, args []Val, dest ssa.Value, isDefer bool, pos token.Pos) ([]*Config, bool) {
+	ic := x.lookupIface(cb.Iface)
+	if ic == nil {
+		unsupported("callback contract %s not found", cb.Iface)
+	}
+	x.calledContracts["callback "+cb.Iface] = true
+	here := x.entryEnv(cfg)
+	here.frame = f
+	env := &SpecEnv{x: x, cfg: cfg, st: cfg.st, old: cfg.st, vars: map[string]SpecVal{}, pkg: x.pkgOf(ic.Pkg), cf: x.P.Contracts[ic.Pkg]}
+	gps := strings.Fields(ic.Options["ghostparams"])
+	if len(gps) != len(cb.Args) {
+		unsupported("callback %s: %d ghost parameters, %d arguments", cb.Iface, len(gps), len(cb.Args))
+	}
+	for k, g := range gps {
+		env.vars[g] = x.spec(here, cb.Args[k])
+	}
+	for k, n := range strings.Fields(ic.Options["params"]) {
+		if k < len(args) {
+			env.vars[n] = x.valToSpec(cfg.st, args[k], nil)
+		}
+	}
+	for _, r := range ic.Requires {
+		t := x.specBool(env, r.E)
+		x.oblige(cfg, "callback-pre", cb.Param+": "+x.clauseLabel(r), t, nil, pos)
+		cfg.st.assume(t)
+	}
+	oldSt := cfg.st.clone()
+	env.old = oldSt
+	x.havocModifies(cfg, env, ic)
+	var res Val = TupV{}
+	if dest != nil {
+		t := dest.Type()
+		if tup, ok := t.(*types.Tuple); ok {
+			var tv TupV
+			for i := 0; i < tup.Len(); i++ {
+				tv = append(tv, x.symbolicOf(cfg.st, x.d.FreshName("cb!"+sanitize(cb.Param)), tup.At(i).Type()))
+			}
+			res = tv
+		} else {
+			res = x.symbolicOf(cfg.st, x.d.FreshName("cb!"+sanitize(cb.Param)), t)
+		}
+	}
+	env.st = cfg.st
+	env.results = x.resultsToSpec(cfg.st, res, nil, dest)
+	for _, e := range ic.Ensures {
+		cfg.st.assume(x.specBool(env, e.E))
+	}
+	x.finishCall(f, dest, res, isDefer)
+	return nil, false
+}
+
+// checkCallbackArgs: at a call of a function whose contract declares callback
+// parameters, the function value passed must be a closure built on this path
+// whose own contract implements the callback contract, and the closure's
+// captured variables named like the contract's ghost parameters must be the
+// values the callee binds them to.
+func (x *Exec) checkCallbackArgs(cfg *Config, env *SpecEnv, fn *ssa.Function, c *FuncContract, args []Val, pos token.Pos) {
+	if fn == nil {
+		return
+	}
+	for _, cb := range c.Callbacks {
+		idx := -1
+		for k, p := range fn.Params {
+			if p.Name() == cb.Param {
+				idx = k
+			}
+		}
+		if idx < 0 || idx >= len(args) {
+			unsupported("callback %s: no such parameter of %s", cb.Param, c.Key)
+		}
+		var clo *CloV
+		switch v := args[idx].(type) {
+		case *CloV:
+			clo = v
+		case TV:
+			if known, ok := cfg.st.clos[v.T.S]; ok {
+				clo = known
+			}
+		}
+		what := c.Key + ": " + cb.Text
+		if clo == nil {
+			x.oblige(cfg, "callback-conforms", what+" (argument is not a closure built here)", False, nil, pos)
+			continue
+		}
+		body := clo.Fn
+		if len(body.Blocks) == 0 && body.Origin() != nil {
+			body = body.Origin()
+		}
+		fc := x.P.ContractFor(body)
+		if fc == nil || fc.Implements != cb.Iface {
+			x.oblige(cfg, "callback-conforms", what+" ("+fullKey(body)+" is not declared to implement it)", False, nil, pos)
+			continue
+		}
+		ic := x.lookupIface(cb.Iface)
+		if ic == nil {
+			unsupported("callback contract %s not found", cb.Iface)
+		}
+		for k, g := range strings.Fields(ic.Options["ghostparams"]) {
+			if k >= len(cb.Args) {
+				break
+			}
+			want := x.spec(env, cb.Args[k])
+			var got *SpecVal
+			for j, fv := range body.FreeVars {
+				if fv.Name() == g && j < len(clo.Binds) {
+					cenv := &SpecEnv{x: x, cfg: cfg, st: cfg.st, old: cfg.st, vars: map[string]SpecVal{}, pkg: env.pkg, cf: env.cf}
+					cenv.vars["&"+g] = x.valToSpec(cfg.st, clo.Binds[j], fv.Type())
+					v := x.specIdent(cenv, g)
+					got = &v
+				}
+			}
+			if got == nil {
+				x.oblige(cfg, "callback-binding", what+": closure does not capture "+g, False, nil, pos)
+				continue
+			}
+			x.oblige(cfg, "callback-binding", what+": captured "+g, Eq(got.T, want.T), nil, pos)
+		}
+	}
 }
